@@ -172,7 +172,7 @@ Proof.
   apply bind_out; [destruct multi; [lo|apply lib_type_tv, merge_out]|]. intro s1.
   apply bind_out; [destruct sing; [lo|apply lib_type_tv, lib_index_type, lib_only_index, remove_edges_from_out]|]. intro s2.
   apply bind_out; [destruct iso; [lo|apply lib_type_tv, lib_index_type, lib_only_index, remove_nodes_from_out]|]. intro s3.
-  apply bind_out; [destruct conn; [apply lcc_out|lo]|]. intro s4.
+  apply bind_out; [destruct (conn && negb (match h_node s3 with [] => true | _ => false end)); [apply lcc_out|lo]|]. intro s4.
   destruct rl; [apply lib_type_tv, lib_index_type, relabel_out|lo].
 Qed.
 
